@@ -223,6 +223,8 @@ PROPS["C11"]["tasks"] = PROPS["C11"]["tasks"] + ["Simulator._update_agents_for_e
 PROPS["C14"]["tasks"] = PROPS["C14"]["tasks"] + ["Fundamentals.get_fundamental_price", "census:callers[fundamentals]"]
 PROPS["C14"]["bounded"] = list(PROPS["C14"].get("bounded") or []) + list(PROPS["C12"]["bounded"])
 PROPS["C16"]["tasks"] = PROPS["C16"]["tasks"] + ["Market._execute_orders", "Market._update_market_price"]      # the halt line is tested against the market price a fill leaves behind
+for _p in ("C13", "C18"):
+    PROPS[_p]["tasks"] = PROPS[_p]["tasks"] + ["Simulator.__init__[registries]"]
 from .census import CALLERS as _CALLERS
 for _g, (_ps, _r, _t) in _CALLERS.items():
     for _p in _ps:
